@@ -87,7 +87,11 @@ pub struct Reg(pub(crate) Ptr<N>, pub(crate) Vec<N>);
 impl Reg {
     /// Create virtual register with a given number of qubits.
     pub fn new(num: N) -> Self {
-        Self::new_with_mask(1usize.wrapping_shl(num as u32).wrapping_add(!0usize))
+        Self::new_with_mask(if num >= N::BITS as N {
+            !0usize
+        } else {
+            (1usize << num).wrapping_sub(1usize)
+        })
     }
 
     pub(crate) fn new_with_mask(mask: N) -> Self {
